@@ -311,6 +311,11 @@ impl Response {
 
 pub fn be_packet(input: &[u8]) -> IResult<&[u8], (TransactionId, Packet)> {
     let (remain, typ) = be_u16(input)?;
+    // The bytes come from the network: a message cut short before the end of the transaction id
+    // is a parse error, not a reason to panic in `split_at`.
+    if remain.len() < 16 {
+        return Err(Err::Incomplete(nom::Needed::new(16 - remain.len())));
+    }
     let (txid, remain) = remain.split_at(16);
     let (remain, packet) = match typ {
         BINDING_REQUEST => map(be_request, Packet::Request).parse(remain)?,
